@@ -90,6 +90,10 @@ def run_gdb_session(ctx, rng, cands, trace=None):
     seq = 0
     order = []
     names = list(st['names'].values())
+    last_of = {}
+    for j, e0 in enumerate(st['entries']):
+        last_of[e0['ci']] = j
+    destroy_finished = trace is None and (st['strategy'] == 'first' or rng.random() < 0.25)
     for ci in st['names']:
         gs.new_connection(ci, st['sides'][ci])
     case_base = {'lines': [e['line'] for e in st['entries']], 'b': b_text}
@@ -205,6 +209,17 @@ def run_gdb_session(ctx, rng, cands, trace=None):
         if bool(stopped_notice) != bool(stop):
             ctx.violation('stopped-notice', 'line %d: stop()=%r but `Stopped at` notices: %r' % (idx, stop, stopped_notice[:2]), case)
             return
+        if idx == last_of.get(e['ci']) and destroy_finished and not stop:
+            # libwayland destroys the connection after its last message (the selection, if it was this connection, stays what the
+            # user made it; a connection that appears later is another connection)
+            n0, x0 = gs.mark()
+            dstop, dexc = gs.sim.deliver({'kind': 'destroy', 'connection': gs.conns[e['ci']]['addr'], 'thread': 1})
+            script.append(['destroy', e['ci']])
+            ctx.count('destroy_events_known')
+            if dexc is not None or dstop:
+                ctx.violation('halt-at-destroy', 'wl_connection_destroy of connection %s %s' % (name, 'raised %r' % (dexc,) if dexc is not None else 'halted the program'),
+                              dict(case_base, script=script[-60:]))
+                return
         if stop:
             halts += 1
             ctx.setadd('transitions', 'run>halt')
